@@ -457,6 +457,8 @@ class PropertyRun:
 
 
 LEMMA_MAP = {
+    'L9.enum_unique': ['L9_enum_unique'],
+    'L10.row_layout': ['L10_base_step', 'L10_row_decompose', 'L10_row_compose'],
     'L0.count_unfold': ['L0_count_unfold', 'L0_sum_unfold', 'L0_count_zero', 'L0_sum_zero'],
     'L4.sum_prefix_mono': ['L4_sum_prefix_mono'],
     'L4.sum_point_update': ['L4_sum_point_update'],
